@@ -177,6 +177,10 @@ def make_screen(W, spec):
             s.input_required = spec.get("input_required", True)
             s.no_separator = spec.get("no_separator", False)
             s.input_manager.skip_concurrency_check = spec.get("skip_check", False)
+            if spec.get("hidden"):
+                # hidden (password) input: the getpass function is replaced through the public password_func; it prints the prompt and reads from the gated console
+                s.hide_user_input = True
+                s.password_func = lambda prompt: (sys.stdout.write(prompt), sys.stdout.flush(), fake_input())[2]
             if spec.get("answer", "noattr") != "noattr": s.answer = spec["answer"]
         def __str__(s): return spec["name"]
         def _take(s, cb):
@@ -249,7 +253,11 @@ def run_real(case, loopkind="main"):
             for a in (sc[i] if i < len(sc) else []): W.act(a)
             LOG.append(("h<", hid))
         return f
-    for h in case.get("handlers", []): loop.register_signal_handler(W.cls(h["cls"]), mkh(h), h.get("data"))
+    funcs = {}
+    for h in case.get("handlers", []):
+        # two entries with the same handler id register the SAME callback object again (same class, same data): a signal then reaches it twice
+        f = funcs.setdefault(h["hid"], mkh(h))
+        loop.register_signal_handler(W.cls(h["cls"]), f, h.get("data"))
     if case.get("exc_handler"):
         loop.register_signal_handler(ExceptionSignal, lambda s, d: LOG.append(("EXC-handled",)))
     if case.get("quit_cb") is not None: loop.set_quit_callback(lambda d: LOG.append(("quitcb", d)), case["quit_cb"])
@@ -295,12 +303,19 @@ def run_inputs(case):
             k = op[0]
             try:
                 if k == "req":
-                    _, i, skip, hidden = op
+                    _, i, skip, hidden = op[:4]; rearm = op[4] if len(op) > 4 else 0
                     h = (PasswordInputHandler if hidden else InputHandler)(source=Requester(i))
                     if hidden: h.set_pass_func(lambda prompt: (sys.stdout.write(prompt), fake_input())[1])
                     h.skip_concurrency_check = skip
                     calls[i] = []
-                    h.set_callback(lambda v, i=i: calls[i].append(v))
+                    def mk(i, h, left):
+                        def cb(v):
+                            calls[i].append(v)
+                            if left[0] > 0:
+                                # the answer callback asks a follow-up question with the same handler object
+                                left[0] -= 1; h.set_callback(cb); h.get_input("p%d again" % i)
+                        return cb
+                    h.set_callback(mk(i, h, [rearm]))
                     handlers[i] = h
                     h.get_input("p%d" % i)
                     events.append(["req", i, "ok"])
